@@ -145,7 +145,7 @@ func gHoldsIn(s *SugarDB, db int, k string, v gVal) bool {
 		for _, m := range v.elems {
 			good = good && st.Contains(m)
 		}
-		return good
+		return good && setEnumOK(st, v.elems)
 	case gZSet:
 		st, is := e.Value.(*ss.SortedSet)
 		if !is || st.Cardinality() != len(v.elems) {
@@ -156,9 +156,49 @@ func gHoldsIn(s *SugarDB, db int, k string, v gVal) bool {
 			o := st.Get(ss.Value(m))
 			good = good && o.Exists && float64(o.Score) == v.scores[i]
 		}
-		return good
+		return good && zsetEnumOK(st, v.elems, v.scores)
 	}
 	return false
+}
+
+// setEnumOK / zsetEnumOK: what the collection *enumerates* (GetAll, the view every range, algebra and
+// random-member command starts from) is exactly the model too - every enumerated element is a model
+// element (with its score) and no element is enumerated twice. Membership lookups alone would not see
+// an enumeration that a cache or a counter has let drift from the stored members.
+func setEnumOK(st *set.Set, want []string) bool {
+	all := st.GetAll()
+	if len(all) != len(want) {
+		return false
+	}
+	good := true
+	for i, x := range all {
+		good = good && contains(want, x)
+		for _, y := range all[:i] {
+			good = good && x != y
+		}
+	}
+	return good
+}
+
+func zsetEnumOK(st *ss.SortedSet, names []string, scores []float64) bool {
+	all := st.GetAll()
+	if len(all) != len(names) {
+		return false
+	}
+	good := true
+	for i, x := range all {
+		found := false
+		for j, n := range names {
+			if string(x.Value) == n && float64(x.Score) == scores[j] {
+				found = true
+			}
+		}
+		good = good && found
+		for _, y := range all[:i] {
+			good = good && x.Value != y.Value
+		}
+	}
+	return good
 }
 
 func gHolds(s *SugarDB, k string, v gVal) bool { return gHoldsIn(s, 0, k, v) }
